@@ -35,8 +35,8 @@ def _apps(e, acc, seen):
             acc.setdefault(d.name()[3:], {})[e.get_id()] = e
         for c in e.children():
             _apps(c, acc, seen)
-    elif z3.is_quantifier(e):
-        _apps(e.body(), acc, seen)
+    # quantifier bodies are not entered: their terms contain bound variables; the contract
+    # axioms conjoin the analytic instances for their own body (contracts.ensure_axiom)
 
 
 def _mentions_pi(es):
@@ -117,6 +117,12 @@ def analytic_instances(formulas, rounds=2, max_pairs=40):
             add("sin2_cos2", aid, sin(a) * sin(a) + cos(a) * cos(a) == 1)
             add("sin_bound", aid, z3.And(sin(a) >= -1, sin(a) <= 1, cos(a) >= -1, cos(a) <= 1))
             add("sin_zero", aid, z3.Implies(a == 0, z3.And(sin(a) == 0, cos(a) == 1)))
+            add("cos_nonneg_principal", aid, z3.Implies(z3.And(a >= -PI / 2, a <= PI / 2), cos(a) >= 0))
+            add("cos_pos_principal", aid, z3.Implies(z3.And(a > -PI / 2, a < PI / 2), cos(a) > 0))
+            add("sin_nonneg_upper", aid, z3.Implies(z3.And(a >= 0, a <= PI), sin(a) >= 0))
+            add("sin_pos_upper", aid, z3.Implies(z3.And(a > 0, a < PI), sin(a) > 0))
+            add("sin_cos_quarter", aid, z3.Implies(a == PI / 2, z3.And(sin(a) == 1, cos(a) == 0)))
+            need_pi = True
         for tid, t in acc.get("sqrt", {}).items():
             a = t.arg(0)
             add("sqrt_def", tid, z3.Implies(a >= 0, z3.And(t >= 0, t * t == a)))
@@ -128,6 +134,7 @@ def analytic_instances(formulas, rounds=2, max_pairs=40):
             add("arcsin_def", tid, z3.Implies(z3.And(a >= -1, a <= 1),
                                               z3.And(sin(t) == a, t >= -PI / 2, t <= PI / 2, cos(t) >= 0)))
             add("arcsin_zero", tid, z3.Implies(a == 0, t == 0))
+            add("arcsin_sign", tid, z3.And(z3.Implies(a >= 0, t >= 0), z3.Implies(a <= 0, t <= 0)))
         for tid, t in acc.get("arccos", {}).items():
             a = t.arg(0)
             need_pi = True
